@@ -497,10 +497,13 @@ class CallMixin:
         kind = ext.get('kind', 'pure')
         args = [a[1] if isinstance(a, tuple) and len(a) == 2 and isinstance(a[0], str) and a[0] == '*' else a for a in args]
         self.assumptions.add('external %s: %s' % (ext.get('label', label), ext.get('doc', kind)))
-        for exc in ext.get('raises', []):
-            if exc in self.catching(fr):
-                b = self.fresh('raises_%s' % exc, 'bool')
-                self.register_exc(st, b, exc)
+        def may_raise():
+            for exc in ext.get('raises', []):
+                if exc in self.catching(fr):
+                    b = self.fresh('raises_%s' % exc, 'bool')
+                    self.register_exc(st, b, exc)
+        if kind != 'logged':
+            may_raise()
         if kind == 'custom':
             return ext['fn'](self, st, fr, recv, args, kwargs)
         rspec = ext.get('result', 'real')
@@ -561,6 +564,7 @@ class CallMixin:
                 ev = Event(ext.get('label', label.lstrip('.')), recv, args, kwargs, res)
                 ev.heap = dict(st.heap)
                 st.log.append(ev)
+                may_raise()          # the call is in the log also on the path where it raises
             eff = ext.get('effect')
             if eff is not None:
                 eff(self, st, fr, recv, args, kwargs, res)
@@ -585,6 +589,20 @@ class CallMixin:
         for init in ('__cinit__', '__init__'):
             ci2, meth = self.tree.lookup_method(cname, init)
             if meth is not None:
+                # arity / keyword check against the extracted signature (a mismatch is a TypeError at run time)
+                a = meth.args
+                npar = len(a.posonlyargs) + len(a.args) - 1
+                nreq = npar - len(a.defaults)
+                names = [p.arg for p in (a.posonlyargs + a.args)[1:]]
+                given = len(args) + len([k for k in kwargs if k in names])
+                required_missing = [n_ for n_ in names[:nreq][len(args):] if n_ not in kwargs]
+                if (len(args) > npar and a.vararg is None) or required_missing:
+                    self.emit(st, 'defined.call(%s)' % cname, False,
+                              'constructor %s.%s called with %d positional / %s keyword arguments; required %s' % (ci2.name, init, len(args), sorted(kwargs), names[:nreq]))
+                    self.register_exc(st, z3.BoolVal(True), 'TypeError')
+                    return obj
+                if ci2.file.startswith('/') or self.flag('opaque_constructors'):
+                    continue
                 fv = FuncVal(ci2.file, ci2.name + '.' + init, meth, cls=ci2.name)
                 self.call_function(fv, [obj] + list(args), kwargs, st, fr, node, dyn_cls=cname)
         return obj
